@@ -433,19 +433,64 @@ theorem no_underflow_full_good_holds : no_underflow_full_good := by
   intro kind same dsc pb produce users e0 ops hnd hd hg s u n a _ hact ha hle
   exact exit_always_succeeds kind same dsc pb produce users e0 hnd hd ops hg u n a hact ha hle
 
-/-- … and the hypothesis is NEEDED: `C05Cover.no_underflow_full` as literally stated (for ALL histories)
-    is false, because `setBoostedYieldsFactors` accepts `user_rewards_energy_const =
-    user_rewards_farm_const = 0` (it only checks the two minima): `get_user_rewards_for_week` then divides
-    by `cE + cF = 0` and every claim / exit of a user who passes the minima against a non-empty pool
-    aborts.  Owner-only misconfiguration; same behaviour on the real contracts
-    (work/f6fix/zero_consts.ops: ops 8, 9 `err`, model = implementation); reported as an observation. -/
-theorem no_underflow_full_needs_factor_validation : ¬ Mx.C05Cover.no_underflow_full := by
-  intro h
-  have h1 := h .mint false 1000000000000 1000 true [1, 2] 0
-    [.setFactors OWNER ⟨10, 0, 0, 1, 1⟩, .setPct OWNER 2500, .setEnergy 1 1000000 0 1000,
-     .enter 1 none 100000000 [], .advance 10 6, .claim 1 none [(1, 100000000)], .advance 20 7]
-    (by decide) (by decide) 1 2 100000000 (by decide) (by decide) (by decide) (by decide)
-  revert h1
+/-- Finding F7 and its repair.  Before the repair `setBoostedYieldsFactors` accepted
+    `user_rewards_energy_const = user_rewards_farm_const = 0` (it only checked the two minima);
+    `get_user_rewards_for_week` then divides by `cE + cF = 0` and every claim / exit of a user who passes the
+    minima against a non-empty pool aborted — `¬ no_underflow_full` was a theorem here, by `decide` on the
+    history below.  /repo e29f08e makes the endpoint reject such factors; the model follows
+    (`Farm.setFactors`: `req (0 < f.cE ∨ 0 < f.cF)`), so a `setFactors` that violates `GoodOps` is a failed
+    transaction: -/
+theorem setFactors_bad_fails (s : St) (c : Nat) (f : Factors) (h : f.cE + f.cF = 0) :
+    step s (.setFactors c f) = none := by
+  have h1 : f.cE = 0 := by omega
+  have h2 : f.cF = 0 := by omega
+  simp only [step, noOut, setFactors, req, h1, h2, Nat.lt_irrefl, or_self, if_false,
+    Option.bind_eq_bind, Option.map_eq_none_iff]
+  split <;> try rfl
+  split <;> rfl
+
+/-- failed transactions leave no trace, so every history is equivalent to its `GoodOps` part -/
+theorem run_filter_good (ops : List Op) (s : St) : run s ops = run s (ops.filter goodOp) := by
+  induction ops generalizing s with
+  | nil => rfl
+  | cons op rest ih =>
+    cases hg : goodOp op with
+    | true =>
+      simp only [List.filter_cons, hg, if_true]
+      simp only [run, List.foldl_cons]
+      exact ih _
+    | false =>
+      simp only [List.filter_cons, hg]
+      cases op with
+      | setFactors c f =>
+        have hz : f.cE + f.cF = 0 := by
+          simp only [goodOp, decide_eq_false_iff_not, Decidable.not_not] at hg
+          exact hg
+        have : run s (Op.setFactors c f :: rest) = run s rest := by
+          simp only [run, List.foldl_cons, setFactors_bad_fails s c f hz]
+        rw [this]
+        exact ih s
+      | _ => simp [goodOp] at hg
+
+/-- **no_underflow_full, PROVED for ALL histories** (the clause of C05 as literally stated in
+    `C05Cover.no_underflow_full`): in every reachable state of an active farm, whoever holds (part of) a
+    position can exit with it. -/
+theorem no_underflow_full_holds : Mx.C05Cover.no_underflow_full := by
+  intro kind same dsc pb produce users e0 ops hnd hd
+  have hg : GoodOps (ops.filter goodOp) :=
+    goodOps_of_all (List.all_eq_true.mpr fun x hx => (List.mem_filter.mp hx).2)
+  have := no_underflow_full_good_holds kind same dsc pb produce users e0 (ops.filter goodOp) hnd hd hg
+  simp only [← run_filter_good] at this
+  exact this
+
+/-- the F7 history (corpus/farm/f7_zero_reward_constants.ops): the zero-constant configuration is rejected,
+    the farm stays without boosted factors and user 1 exits in week 2 with everything -/
+theorem f7_history_repaired :
+    let ops := [Op.setFactors OWNER ⟨10, 0, 0, 1, 1⟩, .setPct OWNER 2500, .setEnergy 1 1000000 0 1000,
+      .enter 1 none 100000000 [], .advance 10 6, .claim 1 none [(1, 100000000)], .advance 20 7]
+    let s := run (init .mint false 1000000000000 1000 true [1, 2] 0) ops
+    step (init .mint false 1000000000000 1000 true [1, 2] 0) (.setFactors OWNER ⟨10, 0, 0, 1, 1⟩) = none ∧
+    (exitFarm s 1 none 2 100000000).isSome = true := by
   decide
 
 /-- non-vacuity of `exit_always_succeeds` (closed): the two-claimers history satisfies `GoodOps`; user 2
